@@ -22,8 +22,25 @@ def functions(src):
                 d -= 1
                 if d == 0: break
             k += 1
-        out.append((m.group(1), src[i + 1:k]))
+        out.append((m.group(1), src[i + 1:k], src[m.end():i]))
     return out
+
+VAR_RET = re.compile(r'Var\b|Boolean\s*<|UInt8\s*<|Result\s*<\s*\(\s*\)|Self\b|Namespace|ConstraintSystemRef')
+def value_returning(fns):
+    """names of helper functions that hand a WITNESS VALUE (not a circuit variable) back to their caller: their body reads `.value()` / `f()`
+    outside closures and their return type is not a circuit-variable type.  A call of such a helper is a source of the taint analysis
+    (one level of interprocedural flow; helpers calling helpers are closed under iteration)."""
+    names = set(); changed = True
+    while changed:
+        changed = False
+        for name, body, sig in fns:
+            if name in names or name in ('value', 'cs'): continue
+            m = re.search(r'->\s*(.*)$', sig, flags=re.S)
+            if not m or VAR_RET.search(m.group(1)): continue
+            b = strip_closures(body)
+            if re.search(r'\.value\(\)|\bf\(\)', b) or any(re.search(r'\b%s\s*\(' % re.escape(n), b) for n in names):
+                names.add(name); changed = True
+    return names
 
 def strip_closures(body):
     """remove the bodies of closures `|| ...` / `|x| ...` (values may flow there: that is how witnesses are provided)"""
@@ -54,8 +71,9 @@ def strip_closures(body):
         res += body[i]; i += 1
     return res
 
-def analyse(name, body):
+def analyse(name, body, helpers=()):
     b = strip_closures(body)
+    src_re = r'\.value\(\)|\bf\(\)' + ''.join(r'|\b%s\s*\(' % re.escape(h) for h in helpers)
     tainted = set()
     # `if let PAT = EXPR {` headers are not plain let-statements: drop them for the taint propagation (their scrutinee is
     # inspected as a control-flow site below)
@@ -67,7 +85,7 @@ def analyse(name, body):
             m = re.search(r'\blet\s+(?:mut\s+)?(\(?[\w\s,]+\)?)\s*(?::[^=]+)?=\s*(.*)$', s, flags=re.S)
             if not m: continue
             rhs = m.group(2)
-            if re.search(r'\.value\(\)|\bf\(\)', rhs) or any(re.search(r'\b%s\b' % re.escape(t), rhs) for t in tainted):
+            if re.search(src_re, rhs) or any(re.search(r'\b%s\b' % re.escape(t), rhs) for t in tainted):
                 for v in re.findall(r'\w+', m.group(1)):
                     if v not in ('mut',) and v not in tainted: tainted.add(v); changed = True
     sites = []
@@ -77,22 +95,26 @@ def analyse(name, body):
         # (matching on the KIND of a variable, e.g. FqVar::Constant(_), is part of the circuit description, not of the witness)
         ml = re.match(r'\s*let\b(.*?)=(?!=)(.*)$', cond, flags=re.S)
         if ml: cond = ml.group(2)
-        if re.search(r'\.value\(\)|\bf\(\)', cond) or any(re.search(r'\b%s\b' % re.escape(t), cond) for t in tainted):
+        if re.search(src_re, cond) or any(re.search(r'\b%s\b' % re.escape(t), cond) for t in tainted):
             sites.append('%s %s' % (m.group(1), ' '.join(cond.split())[:80]))
     for m in re.finditer(r'\[([^\]]*)\]', b):
         if any(re.search(r'\b%s\b' % re.escape(t), m.group(1)) for t in tainted): sites.append('index ' + m.group(1)[:40])
     return sorted(tainted), sites
 
 def main(out):
-    recs = []
+    recs = []; srcs = []
     for f in FILES:
         p = os.path.join(REPO, f)
         if not os.path.exists(p): recs.append((f, 'MISSING', [], ['missing file'])); continue
         src = strip_comments(open(p).read())
         src = re.split(r'#\[cfg\((?:all\()?test', src)[0]
         src = re.sub(r'#\[cfg\(decaf377_verif\)\]\s*pub mod verif_hints\s*\{.*', '', src, flags=re.S)
-        for name, body in functions(src):
-            t, s = analyse(name, body); recs.append((f, name, t, s))
+        srcs.append((f, src))
+    allf = [x for f, src in srcs for x in functions(src)]
+    helpers = sorted(value_returning(allf))
+    for f, src in srcs:
+        for name, body, sig in functions(src):
+            t, s = analyse(name, body, [h for h in helpers if h != name]); recs.append((f, name, t, s))
     q = lambda s: '"' + s.replace('"', '""') + '"'
     lines = ['(* GENERATED by translator/gadget_shape.py from the current source tree — do not edit *)',
              'Require Import List String. Import ListNotations. Open Scope string_scope.', '',
